@@ -49,6 +49,13 @@ class TwoIn(nn.Module):
         return self.fc(torch.flatten(torch.relu(self.c3(y)), 1))
 
 
+class TwoInSharedBN(TwoIn):
+    """ONE BatchNorm module applied after two DIFFERENT convolutions"""
+    def forward(self, a, b):
+        y = torch.relu(self.bn(self.c1(a)) + self.bn(self.c2(b)))
+        return self.fc(torch.flatten(torch.relu(self.c3(y)), 1))
+
+
 def cases(tier, seed):
     out = []
     progs = list(GP.gen_base(2 if tier == 'quick' else 3))
@@ -65,6 +72,7 @@ def cases(tier, seed):
     for train in (False, True):
         for fold in (False, True):
             out.append({'kind': 'pit-twoin', 'fold_bn': fold, 'train': train})
+            out.append({'kind': 'pit-twoin', 'fold_bn': fold, 'train': train, 'shared_bn': True})
             if not fold:   # a user-placed layer built with fold_bn=False inside PIT(fold_bn=True) is a user inconsistency, not generated
                 out.append({'kind': 'pit-userplaced', 'fold_bn': fold, 'train': train})
     sn = GS.gen('quick')
@@ -103,7 +111,7 @@ def _run_pit(case, seed, res, add):
         xs = (x,)
     elif kind == 'pit-twoin':
         torch.manual_seed(seed + 5)
-        model = TwoIn()
+        model = TwoInSharedBN() if case.get('shared_bn') else TwoIn()
         with torch.no_grad():
             model.bn.running_mean.normal_(0, 0.3)
             model.bn.running_var.uniform_(0.5, 1.5)
